@@ -199,6 +199,10 @@ def p_C11(tier, seed):
     nh, nk, no = scope(tier, (8, [16, 30], 300), (32, [16, 30, 60], 1500))
     f.merge(engines.engine_B("C11", ["pq", "dpq"], seed, nh, nk, no,
                              weights={"push_increase": 30, "push_decrease": 30, "push": 15}))
+    # every stored key (every heap position) of seeded mid-size states
+    f.merge(engines.engine_M("C11", ["pq", "dpq"], scope(tier, (8, 13, 16, 31), (8, 9, 13, 16, 17, 31, 32, 40, 64)),
+                             scope(tier, 3, 6), seed, ["sorted:pop", "sorted:pop_min", "sorted:pop_max"],
+                             ops_filter=lambda o: o["op"] in PUSHDIR))
     return f
 
 
@@ -334,7 +338,7 @@ def p_C07(tier, seed):
             keys = ["k%d" % i for i in range(ln + 6)]
             base = [{"op": "push", "k": keys[i], "r": rng.randint(-3, 6)} for i in range(ln)]
             probes = []
-            for m in (1, 2, 3, 5, ln // 2, ln, ln + 4):
+            for m in (1, 2, 3, 5, ln // 2, ln, ln + 4, 60, 150):
                 prs = [[rng.choice(keys), rng.randint(-3, 6)] for _ in range(m)]
                 for h in HINTS + [[0, 40], [0, 4 * ln], [3, -1], [2 * ln, -1]]:
                     st = {"op": "extend", "pairs": prs}
@@ -454,7 +458,9 @@ def p_C15(tier, seed):
             use = [{"op": "push", "q": 2, "k": keys[0], "r": maxp}, {"op": "push", "q": 2, "k": "z", "r": 0}, {"op": pm, "q": 2},
                    {"op": "remove", "q": 2, "k": keys[-1]}, {"op": "contents", "q": 2}]
             eq = [{"op": "eq", "q": 1, "o": 2}] if tk == kind else []
-            out.append([{"op": "roundtrip", "q": 2, "src": 1, "kind": tk}] + eq + use)
+            pk = [{"op": "peek", "q": 2}] if tk == "pq" else [{"op": "peek_min", "q": 2}, {"op": "peek_max", "q": 2}]
+            srt = [{"op": "sorted", "q": 2, "mode": "pop" if tk == "pq" else "pop_max"}]
+            out.append([{"op": "roundtrip", "q": 2, "src": 1, "kind": tk}] + pk + srt + eq + use)
         out.append([{"op": "ser"}])
         return out
     wit = ["contents", "sorted:pop", "sorted:pop_min", "sorted:pop_max"]
@@ -468,8 +474,11 @@ def p_C15(tier, seed):
         pm = "pop" if kind == "pq" else "pop_max"
         probes = []
         for sq in seqs:
-            probes.append([{"op": "de", "q": 2, "kind": kind, "pairs": sq},
-                           {"op": "push", "q": 2, "k": "z", "r": 1}, {"op": pm, "q": 2}, {"op": "contents", "q": 2}])
+            pk = ["peek"] if kind == "pq" else ["peek_min", "peek_max"]
+            srt = "pop" if kind == "pq" else "pop_min"
+            probes.append([{"op": "de", "q": 2, "kind": kind, "pairs": sq}]
+                          + [{"op": x, "q": 2} for x in pk] + [{"op": "sorted", "q": 2, "mode": srt}]
+                          + [{"op": "push", "q": 2, "k": "z", "r": 1}, {"op": pm, "q": 2}, {"op": "contents", "q": 2}])
             probes.append([{"op": "de_tokens", "q": 1, "kind": kind, "pairs": sq, "lenhint": 0}])
             probes.append([{"op": "de_tokens", "q": 1, "kind": kind, "pairs": sq, "lenhint": -1}])
         # texts that are not a pair sequence at all: an error (or an empty queue) is fine, a panic is not
@@ -598,7 +607,7 @@ def p_C18(tier, seed):
     n, mp = scope(tier, (3, 2), (4, 2))
     hs = ("std", "fixed", "fnv", "collide", "random")
     f = engines.engine_A("C18", ["pq", "dpq"], n, mp, light, ["contents", "sorted:pop", "sorted:pop_min", "sorted:pop_max"],
-                         hashers=hs)
+                         hashers=hs, probe_sample=scope(tier, 120, None), seed=seed)
     # the constructing / bulk operations (they build their own hasher through Default) under every hasher
     f.merge(engines.engine_A("C18", ["pq", "dpq"], n, mp, lambda p: False, ["contents"], hashers=hs, max_states=3,
                              extra_probes=lambda kind, keys, maxp: creation_probes(kind, keys, maxp), wd_name="C18c"))
@@ -619,6 +628,30 @@ def p_C18(tier, seed):
                              hashers=hs, extra_probes=appends, wd_name="C18a", max_states=40))
     nh, nk, no = scope(tier, (10, [16, 40], 300), (40, [16, 40, 100], 1500))
     f.merge(engines.engine_B("C18", ["pq", "dpq"], seed, nh, nk, no, hashers=hs))
+    # long batches with repeated items through both strategies of extend (rebuild needs a receiver of >= 8)
+    import random
+    rng = random.Random(seed)
+    cases = []
+    for kind in ("pq", "dpq"):
+        for h in hs:
+            for ln in scope(tier, (16,), (8, 16, 33, 64)):
+                keys = ["k%d" % i for i in range(ln)] + ["n%d" % i for i in range(40)]
+                base = [{"op": "push", "k": "k%d" % i, "r": rng.randint(-3, 9)} for i in range(ln)]
+                probes = []
+                for m in scope(tier, (60, 150), (40, 120, 180)):
+                    pool = rng.sample(keys, min(len(keys), m // 3 + 1))
+                    prs = [[rng.choice(pool), rng.randint(-9, 19)] for _ in range(m)]
+                    for hint in scope(tier, (None, [0, 4 * m]), (None, [0, -1], [0, 4 * m])):
+                        st = {"op": "extend", "pairs": prs}
+                        if hint is not None:
+                            st["hint"] = hint
+                        probes.append([st])
+                cases.append({"case": [kind, h, "bigext", ln], "kind": kind, "hasher": h, "universe": keys[:12], "steps": base,
+                              "probes": probes, "wit": ["sorted:pop", "sorted:pop_min"]})
+    t = engines.Findings()
+    t.stats["engines"].append({"engine": "bigext", "cases": len(cases)})
+    engines.replay_and_validate(cases, vlib.workdir("C18_bigext"), "bigext", t)
+    f.merge(t)
     return f
 
 
@@ -651,7 +684,8 @@ PROPS = {
             "relevant": lambda fl: fl["op"] in ("eq", "ne", "clone") or fl["phase"] == "hist"
             or (fl["op"] in ("contents",) and fl.get("event", {}).get("q") == 0)},
     "C15": {"run": p_C15, "level": "model_checking", "aborts": True,
-            "relevant": lambda fl: fl["cause_op"] in ("de", "roundtrip", "de_tokens", "ser") or fl["op"] in ("de", "roundtrip", "de_tokens", "ser")},
+            "relevant": lambda fl: fl["cause_op"] in ("de", "roundtrip", "de_tokens", "ser") or fl["op"] in ("de", "roundtrip", "de_tokens", "ser")
+            or fl["engine"].startswith("F") or fl["engine"] == "witness"},
     "C16": {"run": p_C16, "level": "model_checking",
             "relevant": lambda fl: True},
     "C17": {"run": p_C17, "level": "model_checking",
@@ -833,8 +867,15 @@ def witness_search(prop, fails):
                 o = (p if isinstance(p, list) else [p])[-1] if False else (p if isinstance(p, list) else [p])
                 return any(x.get("op") == cause["op"] and x.get("k") == cause.get("k") and
                            (("r" not in x) or x.get("r") == cause.get("r")) for x in o)
+            def cut(p):
+                o = p if isinstance(p, list) else [p]
+                for j, x in enumerate(o):
+                    if x.get("op") == cause["op"] and x.get("k") == cause.get("k"):
+                        return o[:j + 1]
+                return o
+            tq = cause.get("q", 1)
             sel = [p for p in case.get("probes", []) if same(p)][:6]
-            case["probes"] = [(p if isinstance(p, list) else [p]) + cont + peeks + pops for p in sel]
+            case["probes"] = [cut(p) + [dict(x, q=tq) for x in cont + peeks + pops] for p in sel]
         case["wit"] = ["sorted:pop", "sorted:pop_min", "sorted:pop_max"]
         case["case"] = ["witness", n, case.get("case")]
         cases.append(case)
